@@ -113,7 +113,8 @@ def render(afile, style=0):
         elif kind == "SELECT_IF":
             L.append("#>SELECT_IF PROTOCOL=" + val if style % 2 else "#> SELECT_IF PROTOCOL=" + val)
         elif kind == "CRC":
-            L.append("##CRC: 0x%08X" % val)
+            # the checksum is a NUMBER: zero-padded or not, either case
+            L.append("##CRC: " + ("0x%08X", "0x%X", "0x%08x", "0x%x")[0 if afile.get("canonical_filters", False) else (style + val + len(L)) % 4] % val)
         else:
             raise ValueError(kind)
 
